@@ -206,7 +206,34 @@ def rule_reembedded_text(ctx):
             f.rule = "C08.f"
 
 
+def rule_nop_with_params(ctx):
+    """C08.g: a statement with client-side parameters that matches a nop pattern is answered with the parameter-free status
+    statement — the engine must not be handed the user's parameters with it (it would refuse: "needs 0 parameters")."""
+    from ..values import Lst, Tup
+
+    prog = ctx.prog
+    n = 0
+    P1 = Sym("P1")
+    for pname, params in (("sequence", Tup([P1])), ("list", Lst([P1]))):
+        for tr in run_execute(prog, "INSERT", None, params=params, paramstyle="pyformat", nop_regexes=Lst([Const("^INSERT")]), nop_match=True):
+            if tr.hooks.parsed:
+                continue  # (not the nop path)
+            n += 1
+            calls = tr.hooks.calls
+            eng = calls[0][1] if calls else None
+            ok = tr.path.outcome == "return" and bool(calls) and (eng is None or (isinstance(eng, Const) and eng.v is None))
+            ctx.ob("C08.g", f"nop-matched statement with pyformat {pname} parameters: the status statement runs without parameters", ok,
+                   "fakesnow/cursor.py", tagof(eng) if eng is not None else "")
+            if not ok:
+                ctx.violation("C08.g", "cursor", "FakeSnowflakeCursor.execute", f"nop path with {pname} parameters", "fakesnow/cursor.py",
+                              f"a statement matched by nop_regexes and executed with pyformat parameters hands `{tagof(eng) if eng is not None else '?'}` to the "
+                              f"engine together with the placeholder-free status statement: the engine refuses the parameters, so the no-op fails "
+                              f"exactly when values are bound")
+    ctx.floor("C08.g nop paths with parameters", n, 2)
+
+
 RULES = [
+    ("C08.g", rule_nop_with_params, ("quick", "thorough")),
     ("C08.f", rule_reembedded_text, ("quick", "thorough")),
     ("C08.a", rule_client_side, ("quick", "thorough")),
     ("C08.d", rule_server_side, ("quick", "thorough")),
